@@ -12,7 +12,7 @@ Ltac Zify.zify_post_hook ::= Z.div_mod_to_equations.
 Ltac sbind := eapply safe_bind.
 
 Lemma expect_wt_safe got exp : safe (fun _ => True) (expect_wt got exp).
-Proof. unfold expect_wt. destruct (got =? exp); exact I. Qed.
+Proof. unfold expect_wt. destruct (got =? exp); triv. Qed.
 
 (* ---- skipTag ---- *)
 
@@ -25,10 +25,10 @@ Proof.
     { sbind; [apply decode_varint_safe|]. intros [v n] (_ & Hn & _). cbn [safe bind fst snd i_off]. lia. }
     destruct (wt =? 2).
     { sbind; [apply decode_varint_safe|]. intros [v n] (_ & Hn & Hl).
-      destruct (u64_of_int (zlen data - n) <? v) eqn:Hc; [exact I|].
+      destruct (u64_of_int (zlen data - n) <? v) eqn:Hc; [triv|].
       destruct (length_check (zlen data) n v ltac:(lia) Hmax Hc) as (H0 & _ & _). cbn [safe bind fst snd i_off]. lia. }
-    destruct (wt =? 5); [cbn [safe bind fst snd i_off]; lia|]. destruct (wt =? 1); [cbn [safe bind fst snd i_off]; lia|]. exact I.
-  - intros skip Hs. cbv beta in Hs. destruct (zlen data <? skip)%Z eqn:Hc; [exact I|]. cbn [safe bind fst snd i_off]. lia.
+    destruct (wt =? 5); [cbn [safe bind fst snd i_off]; lia|]. destruct (wt =? 1); [cbn [safe bind fst snd i_off]; lia|]. triv.
+  - intros skip Hs. cbv beta in Hs. destruct (zlen data <? skip)%Z eqn:Hc; [triv|]. cbn [safe bind fst snd i_off]. lia.
 Qed.
 
 (* ---- the shared "length-delimited" step: varint length at [offset], checked, then sliced ---- *)
@@ -50,7 +50,7 @@ Proof.
   { sbind; [apply expect_wt_safe|]. intros _ _.
     destruct (skipn_slice data (offset + n) ltac:(lia)) as [-> Hl2]. cbn [bind].
     sbind; [apply decode_varint_safe|]. intros [v2 n2] (_ & Hn2 & Hnl2). rewrite Hl2 in Hnl2.
-    destruct (u64_of_int (zlen data - (offset + n + n2)) <? v2) eqn:Hc; [exact I|].
+    destruct (u64_of_int (zlen data - (offset + n + n2)) <? v2) eqn:Hc; [triv|].
     destruct (length_check (zlen data) (offset + n + n2)%Z v2 ltac:(lia) Hmax Hc) as (H0 & H1 & _).
     rewrite slice3_ok by lia. cbn [safe bind fst snd i_off]. lia. }
   destruct (v / 8 =? 4).
@@ -59,7 +59,7 @@ Proof.
     sbind; [apply decode_varint_safe|]. intros [v2 n2] (_ & Hn2 & Hnl2). rewrite Hl2 in Hnl2. cbn [safe bind fst snd i_off]. lia. }
   destruct (v / 8 =? 3).
   { sbind; [apply expect_wt_safe|]. intros _ _.
-    destruct (zlen data - (offset + n) <? 8)%Z eqn:Hc; [exact I|].
+    destruct (zlen data - (offset + n) <? 8)%Z eqn:Hc; [triv|].
     rewrite slice3_ok by lia. cbn [safe bind fst snd i_off]. lia. }
   destruct (skipn_slice data (offset + n) ltac:(lia)) as [-> Hl2]. cbn [bind].
   sbind; [apply skip_tag_safe; lia|]. intros k Hk. rewrite Hl2 in Hk. cbn [safe bind fst snd i_off]. lia.
@@ -73,7 +73,7 @@ Proof.
   - intros [offset e] Ho. cbn [fst] in Ho. unfold kv_body.
     sbind; [apply (kv_field_safe data offset e Ho Hmax)|].
     intros [offset' e'] Hp. cbn [fst] in Hp.
-    destruct (offset' =? zlen data)%Z; cbn [safe bind fst snd i_off]; [exact I|]. cbn [fst]. lia.
+    destruct (offset' =? zlen data)%Z; cbn [safe bind fst snd i_off]; [triv|]. cbn [fst]. lia.
   - cbn [fst]. pose proof (zlen_nonneg data). lia.
   - cbn [fst]. unfold zlen. lia.
 Qed.
@@ -87,7 +87,7 @@ Lemma index_body_safe data st : (0 <= i_off st <= zlen data)%Z -> (zlen data <= 
                  end) (index_body data st).
 Proof.
   intros Ho Hmax. unfold index_body.
-  destruct (zlen data <=? i_off st)%Z eqn:Hend; [exact I|].
+  destruct (zlen data <=? i_off st)%Z eqn:Hend; [triv|].
   set (offset := i_off st) in *.
   destruct (skipn_slice data offset Ho) as [-> Hl]. cbn [bind].
   sbind; [apply decode_varint_safe|]. intros [v n] (_ & Hn & Hnl). rewrite Hl in Hnl.
@@ -95,7 +95,7 @@ Proof.
   { sbind; [apply expect_wt_safe|]. intros _ _.
     destruct (skipn_slice data (offset + n) ltac:(lia)) as [-> Hl2]. cbn [bind].
     sbind; [apply decode_varint_safe|]. intros [v2 n2] (_ & Hn2 & Hnl2). rewrite Hl2 in Hnl2.
-    destruct (u64_of_int (zlen data - (offset + n + n2)) <? v2) eqn:Hc; [exact I|].
+    destruct (u64_of_int (zlen data - (offset + n + n2)) <? v2) eqn:Hc; [triv|].
     destruct (length_check (zlen data) (offset + n + n2)%Z v2 ltac:(lia) Hmax Hc) as (H0 & H1 & _).
     rewrite slice3_ok by lia. cbn [bind safe].
     destruct (v / 8 =? 1); [cbn [i_off]; lia|]. destruct (v / 8 =? 4); cbn [i_off]; lia. }
@@ -114,7 +114,7 @@ Proof.
   apply (loop_safe (index_body data) (fun st => (0 <= i_off st <= zlen data)%Z)
                    (fun st => Z.to_nat (zlen data - i_off st))).
   - intros st Ho. eapply safe_weaken; [apply (index_body_safe data st Ho Hmax)|].
-    intros [st'|a] H; [lia|exact I].
+    intros [st'|a] H; [lia|triv].
   - cbn [i_off]. pose proof (zlen_nonneg data). lia.
   - cbn [i_off]. unfold zlen. lia.
 Qed.
@@ -136,7 +136,7 @@ Lemma next_body_safe data offset : (0 <= offset <= zlen data)%Z -> (zlen data <=
                  end) (next_body data offset).
 Proof.
   intros Ho Hmax. unfold next_body.
-  destruct (zlen data <=? offset)%Z eqn:Hend; [exact I|].
+  destruct (zlen data <=? offset)%Z eqn:Hend; [triv|].
   destruct (skipn_slice data offset Ho) as [-> Hl]. cbn [bind].
   sbind; [apply decode_varint_safe|]. intros [v n] (_ & Hn & Hnl). rewrite Hl in Hnl.
   destruct (v / 8 =? 2); [cbn [safe bind fst snd i_off]; lia|].
@@ -154,7 +154,7 @@ Proof.
   apply (loop_safe (next_body data) (fun off => (cur <= off <= zlen data)%Z)
                    (fun off => Z.to_nat (zlen data - off))).
   - intros off Ho. eapply safe_weaken; [apply (next_body_safe data off ltac:(lia) Hmax)|].
-    intros [off'|[[off' wt]|]] H; first [lia|exact I].
+    intros [off'|[[off' wt]|]] H; first [lia|triv].
   - lia.
   - unfold zlen. lia.
 Qed.
@@ -167,11 +167,11 @@ Lemma dbi_next_safe data cur : (0 <= cur <= zlen data)%Z -> (zlen data <= max_in
 Proof.
   intros Hc Hmax. unfold dbi_next.
   sbind; [apply (next_loop_safe data cur Hc Hmax)|].
-  intros [[offset wt]|] Hr; [|exact I].
+  intros [[offset wt]|] Hr; [|triv].
   sbind; [apply expect_wt_safe|]. intros _ _.
   destruct (skipn_slice data offset ltac:(lia)) as [-> Hl]. cbn [bind].
   sbind; [apply decode_varint_safe|]. intros [v n] (_ & Hn & Hnl). rewrite Hl in Hnl.
-  destruct (u64_of_int (zlen data - (offset + n)) <? v) eqn:Hck; [exact I|].
+  destruct (u64_of_int (zlen data - (offset + n)) <? v) eqn:Hck; [triv|].
   destruct (length_check (zlen data) (offset + n)%Z v ltac:(lia) Hmax Hck) as (H0 & H1 & _).
   rewrite slice3_ok by lia. cbn [bind].
   sbind; [apply kv_unmarshal_safe|].
@@ -186,14 +186,14 @@ Proof.
                    (fun st => Z.to_nat (zlen data - fst st))).
   - intros [cur acc] Ho. cbn [fst] in Ho. unfold entries_body.
     sbind; [apply (dbi_next_safe data cur Ho Hmax)|].
-    intros [[e cur']|] H; cbn [safe bind fst snd i_off]; [cbn [fst]; lia|exact I].
+    intros [[e cur']|] H; cbn [safe bind fst snd i_off]; [cbn [fst]; lia|triv].
   - cbn [fst]. pose proof (zlen_nonneg data). lia.
   - cbn [fst]. unfold zlen. lia.
 Qed.
 
 Lemma dbi_content_safe o : (zlen (o_data o) <= max_int)%Z -> safe (fun _ => True) (dbi_content o).
 Proof.
-  intros Hmax. unfold dbi_content. sbind; [apply all_entries_safe, Hmax|]. intros es _. exact I.
+  intros Hmax. unfold dbi_content. sbind; [apply all_entries_safe, Hmax|]. intros es _. triv.
 Qed.
 
 (* ---- csproto Decoder operations: the offset moves forward and stays inside the buffer ---- *)
@@ -203,21 +203,21 @@ Definition fwd (p : bytes) (off off' : Z) : Prop := (off < off' <= zlen p)%Z.
 Lemma dec_tag_safe p off : (0 <= off)%Z ->
   safe (fun x => let '(_, _, off') := x in fwd p off off') (dec_tag p off).
 Proof.
-  intros Ho. unfold dec_tag. destruct (zlen p <=? off)%Z eqn:He; [exact I|].
+  intros Ho. unfold dec_tag. destruct (zlen p <=? off)%Z eqn:He; [triv|].
   destruct (skipn_slice p off ltac:(lia)) as [-> Hl]. cbn [bind].
   sbind; [apply decode_varint_safe|]. intros [v n] (_ & Hn & Hnl). rewrite Hl in Hnl.
-  destruct ((n <? 1)%Z || (v <? 1) || (MaxTagValue <? v)); [exact I|]. cbn [safe bind fst snd i_off]. unfold fwd. lia.
+  destruct ((n <? 1)%Z || (v <? 1) || (MaxTagValue <? v)); [triv|]. cbn [safe bind fst snd i_off]. unfold fwd. lia.
 Qed.
 
 Lemma dec_bytes_safe maxlen p off : (0 <= off)%Z -> (zlen p <= max_int)%Z -> maxlen < two63 ->
   safe (fun x => fwd p off (snd x) /\ (zlen (fst x) + 1 <= snd x - off)%Z) (dec_bytes maxlen p off).
 Proof.
-  intros Ho Hmax Hml. unfold dec_bytes. destruct (zlen p <=? off)%Z eqn:He; [exact I|].
+  intros Ho Hmax Hml. unfold dec_bytes. destruct (zlen p <=? off)%Z eqn:He; [triv|].
   destruct (skipn_slice p off ltac:(lia)) as [-> Hl]. cbn [bind].
   sbind; [apply decode_varint_safe|]. intros [l n] (_ & Hn & Hnl). rewrite Hl in Hnl.
-  destruct (n =? 0)%Z; [exact I|]. destruct (maxlen <? l) eqn:Hc; [exact I|].
+  destruct (n =? 0)%Z; [triv|]. destruct (maxlen <? l) eqn:Hc; [triv|].
   rewrite int_of_u64_small by lia.
-  destruct (zlen p <? off + n + Z.of_N l)%Z eqn:Hc2; [exact I|].
+  destruct (zlen p <? off + n + Z.of_N l)%Z eqn:Hc2; [triv|].
   rewrite slice3_ok by lia. cbn [bind safe fst snd]. unfold fwd.
   rewrite zlen_slice3 by lia. lia.
 Qed.
@@ -225,30 +225,30 @@ Qed.
 Lemma dec_string_safe maxlen p off : (0 <= off)%Z -> (zlen p <= max_int)%Z -> maxlen < two63 ->
   safe (fun x => fwd p off (snd x) /\ (zlen (fst x) + 1 <= snd x - off)%Z) (dec_string maxlen p off).
 Proof.
-  intros. unfold dec_string. destruct (zlen p <=? off)%Z; [exact I|]. apply dec_bytes_safe; assumption.
+  intros. unfold dec_string. destruct (zlen p <=? off)%Z; [triv|]. apply dec_bytes_safe; assumption.
 Qed.
 
 Lemma dec_uint32_safe p off : (0 <= off)%Z -> safe (fun x => fwd p off (snd x)) (dec_uint32 p off).
 Proof.
-  intros Ho. unfold dec_uint32. destruct (zlen p <=? off)%Z eqn:He; [exact I|].
+  intros Ho. unfold dec_uint32. destruct (zlen p <=? off)%Z eqn:He; [triv|].
   destruct (skipn_slice p off ltac:(lia)) as [-> Hl]. cbn [bind].
   sbind; [apply decode_varint_safe|]. intros [v n] (_ & Hn & Hnl). rewrite Hl in Hnl.
-  destruct (n =? 0)%Z; [exact I|]. destruct (MaxUint32 <? v); [exact I|]. cbn [safe bind fst snd i_off]. unfold fwd. lia.
+  destruct (n =? 0)%Z; [triv|]. destruct (MaxUint32 <? v); [triv|]. cbn [safe bind fst snd i_off]. unfold fwd. lia.
 Qed.
 
 Lemma dec_int64_safe p off : (0 <= off)%Z -> safe (fun x => fwd p off (snd x)) (dec_int64 p off).
 Proof.
-  intros Ho. unfold dec_int64. destruct (zlen p <=? off)%Z eqn:He; [exact I|].
+  intros Ho. unfold dec_int64. destruct (zlen p <=? off)%Z eqn:He; [triv|].
   destruct (skipn_slice p off ltac:(lia)) as [-> Hl]. cbn [bind].
   sbind; [apply decode_varint_safe|]. intros [v n] (_ & Hn & Hnl). rewrite Hl in Hnl.
-  destruct (n =? 0)%Z; [exact I|]. cbn [safe bind fst snd i_off]. unfold fwd. lia.
+  destruct (n =? 0)%Z; [triv|]. cbn [safe bind fst snd i_off]. unfold fwd. lia.
 Qed.
 
 Lemma dec_fixed64_safe p off : (0 <= off)%Z -> safe (fun x => fwd p off (snd x)) (dec_fixed64 p off).
 Proof.
-  intros Ho. unfold dec_fixed64. destruct (zlen p <=? off)%Z eqn:He; [exact I|].
+  intros Ho. unfold dec_fixed64. destruct (zlen p <=? off)%Z eqn:He; [triv|].
   destruct (skipn_slice p off ltac:(lia)) as [-> Hl]. cbn [bind].
-  destruct (Nat.ltb (length (skipn (Z.to_nat off) p)) 8) eqn:Hc; [exact I|].
+  destruct (Nat.ltb (length (skipn (Z.to_nat off) p)) 8) eqn:Hc; [triv|].
   apply Nat.ltb_ge in Hc. cbn [safe bind fst snd i_off]. unfold fwd, zlen in *. lia.
 Qed.
 
@@ -258,7 +258,7 @@ Proof. rewrite sizeof_varint_log2. lia. Qed.
 Lemma dec_skip_safe maxlen p off tag wt : (0 <= off)%Z -> (zlen p <= max_int)%Z -> maxlen < two63 ->
   safe (fun off' => fwd p off off') (dec_skip maxlen p off tag wt).
 Proof.
-  intros Ho Hmax Hml. unfold dec_skip. destruct (zlen p <=? off)%Z eqn:He; [exact I|].
+  intros Ho Hmax Hml. unfold dec_skip. destruct (zlen p <=? off)%Z eqn:He; [triv|].
   sbind; [instantiate (1 := fun skipped => (1 <= skipped)%Z)|].
   - destruct (wt =? 0).
     { destruct (skipn_slice p off ltac:(lia)) as [-> Hl]. cbn [bind].
@@ -267,10 +267,10 @@ Proof.
     destruct (wt =? 2).
     { destruct (skipn_slice p off ltac:(lia)) as [-> Hl]. cbn [bind].
       sbind; [apply decode_varint_safe|]. intros [l n] (_ & Hn & _).
-      destruct (n =? 0)%Z; [exact I|]. destruct (maxlen <? l) eqn:Hc; [exact I|].
+      destruct (n =? 0)%Z; [triv|]. destruct (maxlen <? l) eqn:Hc; [triv|].
       rewrite int_of_u64_small by lia. cbn [safe bind fst snd i_off]. lia. }
-    destruct (wt =? 5); [cbn [safe bind fst snd i_off]; lia|]. exact I.
-  - intros skipped Hs. cbv beta in Hs. destruct (zlen p <? off + skipped)%Z eqn:Hc; [exact I|].
+    destruct (wt =? 5); [cbn [safe bind fst snd i_off]; lia|]. triv.
+  - intros skipped Hs. cbv beta in Hs. destruct (zlen p <? off + skipped)%Z eqn:Hc; [triv|].
     rewrite slice3_ok by (pose proof (sizeof_varint_pos (u64 (tag * 8))); lia).
     cbn [safe bind fst snd i_off]. unfold fwd. lia.
 Qed.
@@ -283,7 +283,7 @@ Lemma maxlen_snapshot_small : MaxFieldLength < two63. Proof. reflexivity. Qed.
 Lemma meta_body_safe p off m : (0 <= off)%Z -> (zlen p <= max_int)%Z ->
   safe (fun x => match x with inl (off', _) => fwd p off off' | inr _ => True end) (meta_body p (off, m)).
 Proof.
-  intros Ho Hmax. unfold meta_body. destruct (zlen p <=? off)%Z eqn:He; [exact I|].
+  intros Ho Hmax. unfold meta_body. destruct (zlen p <=? off)%Z eqn:He; [triv|].
   sbind; [apply (dec_tag_safe p off Ho)|]. intros [[tag wt] off1] H1. unfold fwd in H1.
   pose proof maxlen_default_small as Hml.
   assert (Hstr : forall (k : bytes -> meta),
@@ -315,7 +315,7 @@ Proof.
                    (fun st => Z.to_nat (zlen data - fst st))).
   - intros [off m'] Ho. cbn [fst] in Ho.
     eapply safe_weaken; [apply (meta_body_safe data off m' ltac:(lia) Hmax)|].
-    intros [[off' m'']|a] H; [|exact I]. unfold fwd in H. cbn [fst]. lia.
+    intros [[off' m'']|a] H; [|triv]. unfold fwd in H. cbn [fst]. lia.
   - cbn [fst]. pose proof (zlen_nonneg data). lia.
   - cbn [fst]. unfold zlen. lia.
 Qed.
@@ -338,7 +338,7 @@ Lemma dbis_weight_bounds l :
 Proof.
   induction l as [|o l [IH1 IH2]]; cbn [length dbis_weight fold_right]; [split; [lia|constructor]|].
   fold (dbis_weight l). pose proof (zlen_nonneg (o_data o)). split; [lia|].
-  constructor; [lia|]. eapply Forall_impl; [|exact IH2]. intros a Ha. cbv beta in *. lia.
+  constructor; [lia|]. eapply Forall_impl; [|trivH2]. intros a Ha. cbv beta in *. lia.
 Qed.
 
 (* the invariant of the Unmarshal loop: the offset is inside the buffer, and the DBI objects decoded so
@@ -415,7 +415,7 @@ Proof.
   destruct (Hobjs s Hmax eq_refl) as [_ Hall].
   sbind; [apply (mapM_safe dbi_content _ (fun _ => True) _ Hall)|].
   - intros o Ho. cbv beta in Ho. apply dbi_content_safe. pose proof (zlen_nonneg (o_data o)). lia.
-  - intros ds _. exact I.
+  - intros ds _. triv.
 Qed.
 
 (* C08_total: never a panic (slice out of range, setter after flush, ...) and never out of fuel *)
@@ -442,4 +442,184 @@ Theorem dbi_objects_bound b s : (zlen b <= max_int)%Z -> snap_unmarshal b = Ok s
 Proof.
   intros Hmax H. destruct (snap_unmarshal_objs b s Hmax H) as [Hc Hall]. unfold zlen in *. split; [lia|].
   eapply Forall_impl; [|exact Hall]. intros o Ho. cbv beta in Ho. lia.
+Qed.
+
+(* ---- C08_linear: the number of loop rounds ---- *)
+
+(* a loop whose every round moves a position forward inside [0, len] runs at most len - pos + 1 rounds *)
+Lemma simple_loop_steps {S A : Type} (body : S -> res (S + A)) (pos : S -> Z) (len : Z) :
+  (forall s, (0 <= pos s <= len)%Z ->
+     safe (fun x => match x with inl s' => (pos s < pos s' <= len)%Z | inr _ => True end) (body s)) ->
+  forall fuel s, (0 <= pos s <= len)%Z ->
+    loop_steps body (fun _ => 1) fuel s <= Z.to_N (len - pos s) + 1.
+Proof.
+  intros Hb fuel s Hs.
+  apply (loop_steps_le body (fun _ => 1) (fun s => Z.to_N (len - pos s) + 1) (fun s => (0 <= pos s <= len)%Z)); [|exact Hs].
+  intros s0 H0. specialize (Hb s0 H0). destruct (body s0) as [[s'|a]| | |]; cbn [safe] in Hb; try lia.
+Qed.
+
+Lemma kv_steps_le data : (zlen data <= max_int)%Z -> kv_steps data <= Z.to_N (zlen data) + 1.
+Proof.
+  intros Hmax. unfold kv_steps.
+  pose proof (simple_loop_steps (kv_body data) (fun st => fst st) (zlen data)) as H.
+  cbn [fst] in H. eapply N.le_trans; [apply H|cbn [fst]; lia]; [|pose proof (zlen_nonneg data); cbn [fst]; lia].
+  intros [offset e] Ho. cbn [fst] in *. unfold kv_body.
+  eapply safe_bind; [apply (kv_field_safe data offset e Ho Hmax)|].
+  intros [offset' e'] Hp. cbn [fst] in Hp. destruct (offset' =? zlen data)%Z; cbn [safe fst]; [triv|lia].
+Qed.
+
+Lemma index_steps_le data : (zlen data <= max_int)%Z -> index_steps data <= Z.to_N (zlen data) + 1.
+Proof.
+  intros Hmax. unfold index_steps.
+  pose proof (simple_loop_steps (index_body data) i_off (zlen data)) as H.
+  eapply N.le_trans; [apply H|cbn [i_off]; lia]; [|pose proof (zlen_nonneg data); cbn [i_off]; lia].
+  intros st Ho. apply (index_body_safe data st Ho Hmax).
+Qed.
+
+Lemma meta_steps_le data m : (zlen data <= max_int)%Z -> meta_steps data m <= Z.to_N (zlen data) + 1.
+Proof.
+  intros Hmax. unfold meta_steps.
+  pose proof (simple_loop_steps (meta_body data) (fun st => fst st) (zlen data)) as H.
+  eapply N.le_trans; [apply H|cbn [fst]; lia]; [|pose proof (zlen_nonneg data); cbn [fst]; lia].
+  intros [off m'] Ho. cbn [fst] in *.
+  eapply safe_weaken; [apply (meta_body_safe data off m' ltac:(lia) Hmax)|].
+  intros [[off' m'']|a] Hx; [|triv]. unfold fwd in Hx. cbn [fst]. lia.
+Qed.
+
+(* the skip loop of Next: when it finds an entries tag at [offset], every round before consumed at least
+   one byte, so it ran at most offset - cur rounds; otherwise at most len - cur + 1 *)
+Lemma next_loop_steps data : (zlen data <= max_int)%Z -> forall fuel cur, (0 <= cur <= zlen data)%Z ->
+  match loop (next_body data) fuel cur with
+  | Ok (Some (offset, _)) =>
+      loop_steps (next_body data) (fun _ => 1) fuel cur <= Z.to_N (offset - cur) /\ (cur < offset <= zlen data)%Z
+  | _ => loop_steps (next_body data) (fun _ => 1) fuel cur <= Z.to_N (zlen data - cur) + 1
+  end.
+Proof.
+  intros Hmax. induction fuel as [|fuel IH]; intros cur Hc; cbn [loop loop_steps]; [lia|].
+  pose proof (next_body_safe data cur Hc Hmax) as Hb.
+  destruct (next_body data cur) as [[off'|[[off' wt]|]]| | |]; cbn [safe] in Hb; try lia.
+  specialize (IH off' ltac:(lia)).
+  destruct (loop (next_body data) fuel off') as [[[offset wt]|]| | |]; lia.
+Qed.
+
+Lemma next_steps_le data cur : (0 <= cur <= zlen data)%Z -> (zlen data <= max_int)%Z ->
+  match dbi_next data cur with
+  | Ok (Some (_, cur')) => next_steps data cur <= Z.to_N (cur' - cur)
+  | _ => next_steps data cur <= Z.to_N (zlen data - cur) + 1
+  end.
+Proof.
+  intros Hc Hmax. unfold next_steps, dbi_next.
+  pose proof (next_loop_steps data Hmax (S (length data)) cur Hc) as Hl.
+  set (L := loop_steps (next_body data) (fun _ => 1) (S (length data)) cur) in *.
+  destruct (loop (next_body data) (S (length data)) cur) as [[[offset wt]|]| | |]; cbn [bind]; try lia.
+  destruct Hl as [Hl Ho].
+  assert (Hx : (0 <= offset <= zlen data)%Z) by lia.
+  destruct (skipn_slice data offset Hx) as [Hsl Hlen]. rewrite Hsl. cbn [bind].
+  pose proof (decode_varint_safe (skipn (Z.to_nat offset) data)) as Hv.
+  destruct (decode_varint (skipn (Z.to_nat offset) data)) as [[v n]| | |]; cbn [safe] in Hv;
+    try (unfold expect_wt, E; destruct (wt =? 2); cbn [bind]; lia).
+  destruct Hv as (_ & Hn & Hnl). rewrite Hlen in Hnl.
+  destruct (u64_of_int (zlen data - (offset + n)) <? v) eqn:Hck;
+    [unfold expect_wt, E; destruct (wt =? 2); cbn [bind]; rewrite ?Hck; lia|].
+  destruct (length_check (zlen data) (offset + n)%Z v ltac:(lia) Hmax Hck) as (H0 & H1 & _).
+  rewrite slice3_ok by lia.
+  set (b := firstn (Z.to_nat (offset + n + int_of_u64 v - (offset + n))) (skipn (Z.to_nat (offset + n)) data)).
+  assert (Hb : zlen b = int_of_u64 v).
+  { unfold b. rewrite zlen_slice3 by lia. lia. }
+  pose proof (kv_steps_le b ltac:(lia)) as Hk.
+  unfold expect_wt, E. destruct (wt =? 2); cbn [bind]; [|lia].
+  rewrite Hck. rewrite slice3_ok by lia. fold b. cbn [bind].
+  destruct (kv_unmarshal b); cbn [bind]; lia.
+Qed.
+
+Lemma entries_steps_le data : (zlen data <= max_int)%Z ->
+  entries_steps data <= 2 * Z.to_N (zlen data) + 2.
+Proof.
+  intros Hmax. unfold entries_steps.
+  pose proof (loop_steps_le (entries_body data) (fun st => 1 + next_steps data (fst st))
+                (fun st => 2 * Z.to_N (zlen data - fst st) + 2)
+                (fun st => (0 <= fst st <= zlen data)%Z)) as H.
+  eapply N.le_trans; [apply H|cbn [fst]; lia]; [|cbn [fst]; pose proof (zlen_nonneg data); lia].
+  intros [cur acc] Ho. cbn [fst] in *. unfold entries_body.
+  pose proof (next_steps_le data cur Ho Hmax) as Hn.
+  pose proof (dbi_next_safe data cur Ho Hmax) as Hs.
+  destruct (dbi_next data cur) as [[[e cur']|]| | |]; cbn [bind safe fst] in *; try lia.
+Qed.
+
+(* one round of the Unmarshal loop, with the rounds of the nested Meta / indexData loop *)
+Lemma snap_round_cost p st : snap_inv p st -> (zlen p <= max_int)%Z ->
+  match snap_body p st with
+  | Ok (inl st') => 1 + snap_nested p st <= Z.to_N (fst st' - fst st)
+  | _ => 1 + snap_nested p st <= Z.to_N (zlen p - fst st) + 1
+  end.
+Proof.
+  intros (Ho & Hw) Hmax. destruct st as [off s]. cbn [fst snd] in *. unfold snap_body, snap_nested.
+  destruct (zlen p <=? off)%Z eqn:He.
+  { (* no more input: dec_tag fails too *)
+    unfold dec_tag, E. rewrite He. lia. }
+  pose proof (dec_tag_safe p off ltac:(lia)) as Ht.
+  destruct (dec_tag p off) as [[[tag wt] off1]| | |]; cbn [safe bind] in Ht |- *; try lia.
+  unfold fwd in Ht. pose proof maxlen_snapshot_small as Hml.
+  destruct (tag =? 1) eqn:T1.
+  { replace (tag =? 2) with false by lia. replace (tag =? 3) with false by lia.
+    unfold get_uint32. pose proof (dec_uint32_safe p off1 ltac:(lia)) as Hu.
+    unfold expect_wt, E. destruct (wt =? 0); cbn [bind]; [|lia].
+    destruct (dec_uint32 p off1) as [[x off2]| | |]; cbn [safe bind fst snd] in Hu |- *; try lia.
+    unfold fwd in Hu. lia. }
+  destruct (tag =? 4) eqn:T4.
+  { replace (tag =? 2) with false by lia. replace (tag =? 3) with false by lia.
+    unfold get_uint32. pose proof (dec_uint32_safe p off1 ltac:(lia)) as Hu.
+    unfold expect_wt, E. destruct (wt =? 0); cbn [bind]; [|lia].
+    destruct (dec_uint32 p off1) as [[x off2]| | |]; cbn [safe bind fst snd] in Hu |- *; try lia.
+    unfold fwd in Hu. lia. }
+  destruct (tag =? 2) eqn:T2.
+  { unfold get_bytes. pose proof (dec_bytes_safe MaxFieldLength p off1 ltac:(lia) Hmax Hml) as Hb.
+    unfold expect_wt, E. destruct (wt =? 2); cbn [bind]; [|lia].
+    destruct (dec_bytes MaxFieldLength p off1) as [[msg off2]| | |]; cbn [safe bind fst snd] in Hb |- *; try lia.
+    destruct Hb as [Hf Hm]. unfold fwd in Hf.
+    pose proof (meta_steps_le msg (so_meta s) ltac:(lia)) as Hk. pose proof (zlen_nonneg msg).
+    destruct (meta_unmarshal msg (so_meta s)); cbn [bind fst]; lia. }
+  destruct (tag =? 3) eqn:T3.
+  { unfold get_bytes. pose proof (dec_bytes_safe MaxFieldLength p off1 ltac:(lia) Hmax Hml) as Hb.
+    unfold expect_wt, E. destruct (wt =? 2); cbn [bind]; [|lia].
+    destruct (dec_bytes MaxFieldLength p off1) as [[msg off2]| | |]; cbn [safe bind fst snd] in Hb |- *; try lia.
+    destruct Hb as [Hf Hm]. unfold fwd in Hf.
+    pose proof (index_steps_le msg ltac:(lia)) as Hk. pose proof (zlen_nonneg msg).
+    destruct (new_dbi_from_data msg); cbn [bind fst]; lia. }
+  pose proof (dec_skip_safe MaxFieldLength p off1 tag wt ltac:(lia) Hmax Hml) as Hsk.
+  destruct (dec_skip MaxFieldLength p off1 tag wt) as [off2| | |]; cbn [safe bind fst] in Hsk |- *; try lia.
+  unfold fwd in Hsk. lia.
+Qed.
+
+Lemma unmarshal_steps_le b : (zlen b <= max_int)%Z -> unmarshal_steps b <= 2 * Z.to_N (zlen b) + 1.
+Proof.
+  intros Hmax. unfold unmarshal_steps.
+  pose proof (loop_steps_le (snap_body b) (fun st => 1 + snap_nested b st)
+                (fun st => 2 * Z.to_N (zlen b - fst st) + 1) (snap_inv b)) as H.
+  eapply N.le_trans; [apply H|cbn [fst]; lia].
+  - intros st Hi. pose proof (snap_round_cost b st Hi Hmax) as Hc.
+    pose proof (snap_body_safe b st Hi Hmax) as Hs. destruct Hi as (Ho & Hw).
+    destruct (snap_body b st) as [[st'|a]| | |]; cbn [safe] in Hs; try lia.
+    destruct Hs as [Hi' Hlt]. split; [exact Hi'|]. destruct Hi' as (Ho' & _). lia.
+  - unfold snap_inv. cbn [fst snd so_dbis dbis_weight fold_right]. pose proof (zlen_nonneg b). lia.
+Qed.
+
+Lemma sum_entries_steps l : Forall (fun o => (zlen (o_data o) <= max_int)%Z) l ->
+  (Z.of_N (sumN (fun o => entries_steps (o_data o)) l) <= 2 * dbis_weight l)%Z.
+Proof.
+  induction 1 as [|o l Ho Hl IH]; cbn [sumN fold_right dbis_weight]; [lia|].
+  fold (sumN (fun o => entries_steps (o_data o)) l). fold (dbis_weight l).
+  pose proof (entries_steps_le (o_data o) Ho). pose proof (zlen_nonneg (o_data o)). lia.
+Qed.
+
+(* C08_linear: all rounds of all loops of Unmarshal and of the full iteration of every DBI *)
+Theorem steps_linear b : (zlen b <= max_int)%Z -> steps b <= 4 * N.of_nat (length b) + 1.
+Proof.
+  intros Hmax. unfold steps. pose proof (unmarshal_steps_le b Hmax) as Hu.
+  pose proof (snap_unmarshal_safe b Hmax) as Hs. pose proof (snap_unmarshal_objs b) as Ho.
+  destruct (snap_unmarshal b) as [s| | |]; cbn [safe] in Hs; unfold zlen in *; try lia.
+  destruct (Ho s Hmax eq_refl) as [_ Hall].
+  assert (Hall' : Forall (fun o => (zlen (o_data o) <= max_int)%Z) (so_dbis s)).
+  { eapply Forall_impl; [|exact Hall]. intros o H. cbv beta in H. unfold zlen in *. lia. }
+  pose proof (sum_entries_steps (so_dbis s) Hall'). unfold zlen in *. lia.
 Qed.
